@@ -728,7 +728,8 @@ func checkAndPropagateArgsForUnionWithReturnT(
 		}
 
 		if returnT == nil {
-			returnT = methodTs[idx]
+			// methodTs point into the shared method table: never extend them in place
+			returnT = methodTs[idx].DeepCopy()
 
 			continue
 		}
@@ -740,9 +741,10 @@ func checkAndPropagateArgsForUnionWithReturnT(
 		}
 
 		if methodTs[idx].IsUnionType() {
-			methodTs[idx].AppendVariant(*returnT)
+			unionT := methodTs[idx].DeepCopy()
+			unionT.AppendVariant(*returnT)
 
-			returnT = base.MakeUnion(methodTs[idx].GetVariants())
+			returnT = base.MakeUnion(unionT.GetVariants())
 
 			continue
 		}
